@@ -1585,7 +1585,7 @@ Proof.
   unfold maybe_commit. intros H. inv_bind H. destruct x as [l' b'].
   apply log_maybe_commit_le in Hx.
   destruct b'.
-  - destruct (get_pr r (r_id r)); [|discriminate]. inversion H; subst. fx_solve.
+  - destruct (get_pr r (r_id r)); inversion H; subst; fx_solve.
   - inversion H; subst. fx_solve.
 Qed.
 
@@ -2397,7 +2397,7 @@ Proof.
   unfold maybe_commit. intros H. inv_bind H. destruct x as [l' b'].
   apply log_maybe_commit_le in Hx.
   destruct b'.
-  - destruct (get_pr r (r_id r)); [|discriminate]. inversion H; subst. unfold mf. cbn. repeat split; auto.
+  - destruct (get_pr r (r_id r)); inversion H; subst; unfold mf; cbn; repeat split; auto.
   - inversion H; subst. unfold mf. cbn. repeat split; auto.
 Qed.
 
@@ -2631,7 +2631,7 @@ Proof.
   assert (H0 : fx r (r <| r_log := l' |>)) by (apply set_log_fx; lia).
   eapply fx_trans; [exact H0|].
   destruct (upd && is_leader (r <| r_log := l' |>)); [|inversion H; subst; apply fx_refl].
-  destruct (get_pr (r <| r_log := l' |>) (r_id (r <| r_log := l' |>))); [|discriminate].
+  destruct (get_pr (r <| r_log := l' |>) (r_id (r <| r_log := l' |>))); [|inversion H; subst; apply fx_refl].
   destruct (maybe_update p i) as [pr' u].
   eapply fx_trans; [apply lf_fx; apply put_pr_lf|].
   destruct u; [|inversion H; subst; apply fx_refl].
